@@ -248,8 +248,9 @@ def _decide(path):
 
 
 COLD_WORKER = '''
-import json, sys, mimetypes
+import json, os, sys, mimetypes
 spec = json.load(sys.stdin)
+result_out = os.fdopen(os.dup(1), "w"); os.dup2(2, 1)  # result on a private copy of fd 1; prints of the code under test go to stderr
 import logging, warnings
 logging.disable(logging.CRITICAL); warnings.simplefilter("ignore")
 mimetypes.init()
@@ -274,7 +275,7 @@ for ext in spec["exts"]:
     except ExtractionFileFormatNotSupportedError: g = None
     except Exception as e: g = "EXC:" + type(e).__name__ + ":" + str(e)[:80]
     out.append([ext, s, g])
-json.dump(out, sys.stdout)
+json.dump(out, result_out); result_out.flush()
 '''
 
 
